@@ -337,6 +337,10 @@ CLAIMED["C06"]["text"] = CLAIMED["C06"]["text"] + (" FRONT END (Props/C06Parse, 
        "parseLine_comment); the runner skips a None, so such lines leave every word untouched.")
 CLAIMED["C06"]["technique"] = CLAIMED["C06"]["technique"] + " + lexer/parser theorem: blank and comment-only strings are no rule"
 
+CLAIMED["C12"]["text"] = CLAIMED["C12"]["text"] + (" METATHESIS (Props/C12Meta, over the port of the Metathesis arm of transform): when the captured elements are segments at "
+       "pairwise distinct positions, `&` returns a word in which the i-th captured position holds what the (n-1-i)-th held, for every i and EVERY number n of elements, and "
+       "every other position is unchanged (metathesis_reverses) - element by element what `A=1 B=2 ... > n ... 2 1` writes.")
+
 
 def main():
     checks = []
